@@ -30,6 +30,8 @@ type Case struct {
 	// Carry (klen, 0xFF run, period, desc) > 0: byte array leaves are ordered keys
 	// alternating with long values ending in a 0xFF run (gen.Carry)
 	Carry []int `json:"carry,omitempty"`
+	// Mono (mode, fine step, rotation, desc): full-range numeric leaves are a wrapping progression of the row index (gen.Mono)
+	Mono []int `json:"mono,omitempty"`
 }
 
 var paths = []string{"WriteRows", "WriteRows", "WriteRows", "WriteRowGroup(file)", "WriteRowGroup(file,same-config)"}
@@ -39,9 +41,10 @@ func genCase(t *rapid.T) Case {
 	c.Schema = gen.Schema(t, gen.SchemaOpts{MaxDepth: 2, MaxLeaves: 4, LeafIDs: gen.AllLeafIDs, PerLeafEnc: true, EncFor: pq.ValidEncodings})
 	cols := ref.Columns(&c.Schema)
 	st := []gen.Style{gen.Mixed, gen.Mixed, gen.SmallDom, gen.Wide}[rapid.IntRange(0, 3).Draw(t, "style")]
-	carry := rapid.IntRange(0, 5).Draw(t, "carry") == 0
+	special := rapid.IntRange(0, 11).Draw(t, "carry")
+	carry, mono := special <= 1, special >= 2 && special <= 3
 	minRows := []int{0, 20, 60, 150}[rapid.IntRange(0, 3).Draw(t, "min")]
-	if carry && minRows < 60 {
+	if (carry || mono) && minRows < 60 {
 		minRows = 60
 	}
 	c.Plan = gen.RowsAtLeast(t, &c.Schema, 10, minRows, kit.Pick(400, 3000), gen.ValueOpts{Style: st, Leaf: gen.Opts{MaxBytes: 40}})
@@ -71,6 +74,12 @@ func genCase(t *rapid.T) Case {
 			ff = 1
 		}
 		c.Carry = []int{klen, ff, rapid.IntRange(2, 4).Draw(t, "period"), rapid.IntRange(0, 1).Draw(t, "cdesc")}
+	}
+	if mono {
+		n := c.Plan.NumRows()
+		c.Mono = []int{rapid.IntRange(0, 2).Draw(t, "mmode"), pickOf(t, []int{0, 0, 1, 3}, "mfine"), pickOf(t, []int{0, 0, n / 2, rapid.IntRange(0, n).Draw(t, "mrot")}, "mrotk"), rapid.IntRange(0, 1).Draw(t, "mdesc")}
+	}
+	if carry || mono {
 		c.Opts.PageBuf = pickOf(t, []int{32, 48, 64, 100, 128, 256}, "cpagebuf")
 		// page sizes are evaluated once per write call: many short writes make many pages
 		c.Ops = nil
@@ -240,6 +249,10 @@ func runCase(c Case, o *kit.Obs) *kit.Failure {
 	if len(c.Carry) == 4 && c.Carry[0] > 0 && c.Carry[1] > 0 && c.Carry[2] > 1 {
 		gen.Carry(&c.Schema, rows, c.Carry[0], c.Carry[1], c.Carry[2], c.Carry[3] != 0)
 		o.Class("carry-bounds")
+	}
+	if len(c.Mono) == 4 {
+		gen.Mono(&c.Schema, rows, c.Mono[0], c.Mono[1], c.Mono[2], c.Mono[3] != 0)
+		o.Class("monotone-wrapping")
 	}
 	data, err := produce(c, cols, rows)
 	if err != nil {
